@@ -93,10 +93,33 @@ def check(ctx):
                 ok = src_ok and batch_ok and noarith and same_axes
                 detail = f"source {sorted(ast.unparse(d) for d in defs)}, pattern {v.func.value.args[1].value!r}, expand({', '.join(ast.unparse(a) for a in v.args)})"
         ctx.ob("C06.c", f"{cname}.selector = delays rearranged and expanded over the batch axis only", ok, detail, s.where)
+    # merged parameter axes of the Conv2D selector follow the kernel flatten of forward (same synapse order)
+    cv = P.cls("Conv2D")
+    sel_pat = None
+    for x in P.calls_in(cv.props["selector"]["get"]):
+        if dotted(x.func) == "ein.rearrange":
+            sel_pat = einops_alg.Pattern(x.args[1].value)
+    flat = None
+    for x in P.calls_in(cv.methods["forward"]):
+        if dotted(x.func) == "ein.rearrange" and x.args and dotted(x.args[0]) == "self.weight":
+            flat = einops_alg.Pattern(x.args[1].value)
+    ok = sel_pat is not None and flat is not None and sel_pat.inputs[0].groups == flat.inputs[0].groups \
+        and [g for g in sel_pat.output.groups if len(g) > 1] == [g for g in flat.output.groups if len(g) > 1]
+    ctx.ob("C06.c", "Conv2D.selector orders the per-synapse delays like the flattened kernel / unfolded input (c h w)", ok,
+           f"selector {sel_pat.output.text if sel_pat else None!r}, kernel {flat.output.text if flat else None!r}"
+           + ("" if ok else " — synapse k would be shifted by another synapse's delay"), cv.props["selector"]["get"].where)
     ls = P.cls("LinearLateral").props["selector"]["get"]
     ok = "LinearDense.selector.fget(self)" in ast.unparse(ls.node)
     ctx.ob("C06.c", "LinearLateral.selector delegates to the dense selector", ok, "", ls.where)
 
+    # ---------------- (e) clear() erases the delayed history (contributions from before a clear are the resting state)
+    from . import c01
+    c01.reset_semantics(ctx, "C06.e")
+    for cname in ("DeltaCurrent", "DeltaPlusCurrent", "SingleExponentialCurrent", "DoubleExponentialCurrent"):
+        clr = P.cls(cname).find_method("clear")
+        rs = [x for x in P.calls_in(clr) if isinstance(x.func, ast.Attribute) and x.func.attr == "reset" and is_self_attr(x.func.value)]
+        ok = bool(rs) and all(x.args and isinstance(x.args[0], ast.Constant) and x.args[0].value is not None for x in rs)
+        ctx.ob("C06.e", f"{cname}.clear refills every delay record with its resting value", ok, "", clr.where)
     # ---------------- (d) trainers
     classes = T.trainer_classes(P)
     ctx.require("C06.d", "trainer classes", len(classes), 14)
